@@ -246,9 +246,17 @@ func c06Run(rt *hookrt.Runtime, sc *c06Scenario) {
 		rt.AddRule(&hookrt.ParkRule{Point: "api.wait.hc", Keys: []string{fmt.Sprintf("h%d", h)}, Until: "router.handler.handleclose.stop",
 			UntilKeys: []string{fmt.Sprintf("h%d", h)}, Timeout: 3 * time.Second})
 	}
+	var doneRules []*hookrt.ParkRule
+	for h := 0; h < nh; h++ {
+		for k := 0; k < sc.Handlers[h].NMsgs; k++ {
+			doneRules = append(doneRules, rt.AddRule(&hookrt.ParkRule{Point: "api.wait.done", Keys: []string{c06UUID(h, k)},
+				Until: "router.handler.msg.done", UntilKeys: []string{c06UUID(h, k)}, Timeout: 4 * time.Second}))
+		}
+	}
+	rt.AddRule(&hookrt.ParkRule{Point: "api.wait.w1", Until: "router.close.loops_done", Timeout: 3 * time.Second})
+	rt.AddRule(&hookrt.ParkRule{Point: "api.wait.w2", Until: "router.close.running_unlock", Timeout: 3 * time.Second})
 	subs := make([]*c06Sub, nh)
 	pubs := make([]*c06Pub, nh)
-	var handlerWg sync.WaitGroup
 	for h := range sc.Handlers {
 		h := h
 		spec := sc.Handlers[h]
@@ -256,8 +264,6 @@ func c06Run(rt *hookrt.Runtime, sc *c06Scenario) {
 		subs[h] = newC06Sub(hname, spec.Honour)
 		pubs[h] = &c06Pub{h: hname}
 		fn := func(msg *message.Message) ([]*message.Message, error) {
-			handlerWg.Add(1)
-			defer handlerWg.Done()
 			verifhook.At("api.handler.start", hname, msg.UUID)
 			var k int
 			fmt.Sscanf(msg.UUID, fmt.Sprintf("m-%d-%%d", h), &k)
@@ -305,6 +311,7 @@ func c06Run(rt *hookrt.Runtime, sc *c06Scenario) {
 
 	// emitters
 	var emitWg sync.WaitGroup
+	var taken []string
 	for h := range sc.Handlers {
 		h := h
 		emitWg.Add(1)
@@ -317,6 +324,9 @@ func c06Run(rt *hookrt.Runtime, sc *c06Scenario) {
 					verifhook.At("api.emit.refused", fmt.Sprintf("h%d", h), msg.UUID)
 					return
 				}
+				mu.Lock()
+				taken = append(taken, msg.UUID)
+				mu.Unlock()
 			}
 		}()
 	}
@@ -401,7 +411,18 @@ func c06Run(rt *hookrt.Runtime, sc *c06Scenario) {
 		}
 	}
 	waitWg(&emitWg, "an emitter is still blocked")
-	waitWg(&handlerWg, "a handler function is still running")
+	// every message the pump took is handled to completion (the Router settles whatever it dispatched)
+	mu.Lock()
+	tk := append([]string(nil), taken...)
+	mu.Unlock()
+	for _, u := range tk {
+		verifhook.At("api.wait.done", u)
+	}
+	for _, r := range doneRules {
+		if r.TimedOut > 0 {
+			sc.Hung = append(sc.Hung, "a message taken from the subscriber was not handled to completion within 4 s: "+r.Keys[0])
+		}
+	}
 	// every handleClose goroutine has decided (closed its subscriber or not) before the verdict
 	for h := range subs {
 		verifhook.At("api.wait.hc", fmt.Sprintf("h%d", h))
@@ -427,6 +448,22 @@ func c06Run(rt *hookrt.Runtime, sc *c06Scenario) {
 		sc.Rules[i].Parked = r.Parked
 		sc.Rules[i].TimedOut = r.TimedOut
 	}
+	// clean-up after the snapshot, so that nothing of this scenario stamps into the next one: end the subscriptions
+	// the Router left open (D6 / context-cancel cases) and let the waiter goroutines of a timed-out Close finish
+	for h := range subs {
+		subs[h].requestClose()
+	}
+	timedOut := false
+	for _, c := range sc.Calls {
+		if c.Err != "" {
+			timedOut = true
+		}
+	}
+	if timedOut {
+		verifhook.At("api.wait.w1")
+		verifhook.At("api.wait.w2")
+	}
+	time.Sleep(2 * time.Millisecond)
 }
 
 // ---------------------------------------------------------------- scenarios
